@@ -29,7 +29,8 @@ class Prop:
     def keys(self, W):
         ks = [k for k, c in W.contracts.items() if (self.id in c.props or k in self.extra_keys) and not c.trusted and k not in self.exclude_keys]
         ls = [k for k, l in W.lemmas.items() if self.id in l.props or k in self.extra_keys]
-        return ks + ls
+        an = [k for k, (f, props) in W.analyses.items() if self.id in props or k in self.extra_keys]
+        return ks + ls + an
 
     def ground(self, W, tier, seed):
         return []
